@@ -196,6 +196,20 @@ class Ctx(object):
         self.obligations.append(ob)
         return r == z3.unsat
 
+    def implied(self, formula, timeout_ms=3000):
+        """do the facts of this path imply `formula`?  (no record is kept; used to place a failure in a known region)"""
+        if isinstance(formula, SymBool):
+            formula = formula.t
+        if formula is True:
+            return True
+        if formula is False:
+            return False
+        s = z3.Solver()
+        s.set("timeout", timeout_ms)
+        s.add(self.solver.assertions())
+        s.add(z3.Not(formula))
+        return s.check() == z3.unsat
+
     def fail(self, name, detail):
         self.obligations.append(dict(name=name, status="failed", seconds=0.0, backend="engine", detail=detail, reason=detail))
 
